@@ -5,12 +5,11 @@ import RepeVerif.Driver.Common
 Driver for the `fleet` correspondence family (C19).
 
 ```
-case <idx> <b|a> <json|jsonnp|msg> <max> <behaviour,behaviour,…|->
+case <idx> <b|a> <json|jsonnp|msg> <max> <behaviour,behaviour,…|-> [dead=<Kind,Kind,…|->]
    -> <idx> s <contacts>:<result>:<connected> … | h <contacts>:<result>:<connected> … | rec <n|never>
 bc <idx> <b|a> <max> <name=tag+tag=behaviour,…;…> <tag,tag|->
    -> <idx> addressed <name,…|-> results <name=result,…|->
 ```
-`coverage <idx>` -> `<idx> ok` (the harness prints something else when it had to drop too many cases).
 `b` = blocking `Fleet`, `a` = `AsyncFleet`; the policy table and loop shape are the facts extracted
 for that fleet and call variant.
 -/
@@ -32,6 +31,23 @@ def splitList (s : String) (sep : String) : List String :=
 
 def behavioursOf (s : String) : Option (List Behaviour) :=
   (splitList s ",").mapM behaviourOf
+
+def kindOf : String → Option IoKind
+  | "NotFound" => some .notFound | "PermissionDenied" => some .permissionDenied
+  | "ConnectionRefused" => some .connectionRefused | "ConnectionReset" => some .connectionReset
+  | "HostUnreachable" => some .hostUnreachable | "NetworkUnreachable" => some .networkUnreachable
+  | "ConnectionAborted" => some .connectionAborted | "NotConnected" => some .notConnected
+  | "AddrInUse" => some .addrInUse | "AddrNotAvailable" => some .addrNotAvailable
+  | "NetworkDown" => some .networkDown | "BrokenPipe" => some .brokenPipe
+  | "AlreadyExists" => some .alreadyExists | "WouldBlock" => some .wouldBlock
+  | "InvalidInput" => some .invalidInput | "InvalidData" => some .invalidData
+  | "TimedOut" => some .timedOut | "WriteZero" => some .writeZero | "Interrupted" => some .interrupted
+  | "Unsupported" => some .unsupported | "UnexpectedEof" => some .unexpectedEof
+  | "OutOfMemory" => some .outOfMemory | "Other" => some .other
+  | _ => none
+
+def deadKindsOf (fleet : String) : List IoKind :=
+  if fleet = "a" then Gen.Fleet.asyncDeadKinds else Gen.Fleet.deadKinds
 
 def showKind : IoKind → String
   | .notFound => "NotFound" | .permissionDenied => "PermissionDenied"
@@ -83,13 +99,21 @@ def orDash (xs : List String) : String := if xs.isEmpty then "-" else ",".interc
 
 def step (st : Unit) (ws : List String) : Unit × String :=
   match ws with
-  | ["case", idx, fleet, variant, max, seq] =>
-    match policyOf fleet, loopOf fleet variant, behavioursOf seq with
-    | some P, some lf, some bs =>
-      let (os, hs, n) := runCase P lf (natOf max) bs
+  | "case" :: idx :: fleet :: variant :: max :: seq :: rest =>
+    -- optional 7th word `dead=K,K,…`: the error kinds the harness observed for calls on a dead cached client
+    let observed : Option (List IoKind) := match rest with
+      | [] => some []
+      | [w] => if w.startsWith "dead=" then (splitList (w.drop 5).toString ",").mapM kindOf else none
+      | _ => none
+    match policyOf fleet, loopOf fleet variant, behavioursOf seq, observed with
+    | some P, some lf, some bs, some ks =>
+      if ks.any (fun k => !(deadKindsOf fleet).contains k) then
+        (st, idx ++ " inadmissible-dead-client-kind")
+      else
+      let (os, hs, n) := runCase P lf (natOf max) ks bs
       let rec' := match n with | some k => toString k | none => "never"
       (st, joinSp ([idx, "s"] ++ os.map showObs ++ ["|", "h"] ++ hs.map showObs ++ ["|", "rec", rec']))
-    | _, _, _ => (st, idx ++ " bad-op")
+    | _, _, _, _ => (st, idx ++ " bad-op")
   | ["bc", idx, fleet, max, nodes, req] =>
     match policyOf fleet, loopOf fleet "json", (splitList nodes ";").mapM nodeOf with
     | some P, some lf, some ns =>
@@ -98,7 +122,6 @@ def step (st : Unit) (ws : List String) : Unit × String :=
       (st, joinSp [idx, "addressed", orDash addressed, "results",
                    orDash (rs.map fun r => r.1 ++ "=" ++ showReply r.2.result)])
     | _, _, _ => (st, idx ++ " bad-op")
-  | ["coverage", idx] => (st, idx ++ " ok")
   | _ :: idx :: _ => (st, idx ++ " bad-op")
   | _ => (st, "bad-op")
 
